@@ -11,7 +11,9 @@ SITES = ['start', 'ts.canceled.load', 'tsk.schedule.outstanding.load', 'tsk.sche
          'tsk.trywait.load2', 'ts.cancel.store', 'ts.h.worker']
 TAGS = {'b': 1, 'e': 2, 'x': 3, 'u': 4, 's': 5, 'w': 6, 'tw': 7, 'rt': 8, 'c': 9, 'wk': 10, 'bs': 11, 'ee': 12, 'wc': 13, 'sf': 14, 'bf': 15}
 BODY_SITES = (3, 5, 6, 8, 9, 12, 29)
-IMPORTS = 'From DV Require Import Base.MachInt Base.Sched Model.TaskSetModel Model.TaskSetCheck Model.C02Check Model.C04Check Model.C05Check Model.C47Check.'
+IMPORTS = 'From DV Require Import Base.MachInt Base.Sched Model.TaskSetModel Model.TaskSetImplCheck.'          # lockstep judges: independent of Gen/GenTaskSet.v
+IMPORTS_D = 'From DV Require Import Base.MachInt Base.Sched Model.TaskSetModel Model.TaskSetCheck.'           # decision judges vs. the regenerated functions
+CHECK_MODELS = ['Model/TaskSetImplCheck.v', 'Model/TaskSetCheck.v', 'Model/C02Check.v', 'Model/C04Check.v', 'Model/C05Check.v', 'Model/C47Check.v']
 
 
 # ------------------------------------------------------------------------------------------------ programs
@@ -171,7 +173,10 @@ def rand_body(r, sets, depth, throw_p, nested_p):
         return body
     if depth > 0 and r.random() < nested_p:
         s = r.choice(sets)
-        body.append(('s', s, int(r.random() < 0.6), int(r.random() < 0.2), rand_body(r, sets, depth - 1, throw_p, nested_p * 0.5)))
+        if r.random() < 0.35:     # a task that bulk-schedules children onto a (its own) concurrent set, mostly with ForceQueuingTag
+            body.append(('b', s, int(r.random() < 0.8), r.choice([2, 3, 3]), []))
+        else:
+            body.append(('s', s, int(r.random() < 0.6), int(r.random() < 0.2), rand_body(r, sets, depth - 1, throw_p, nested_p * 0.5)))
     return body
 
 
@@ -254,10 +259,64 @@ def gen_directed_exc(r):
     return c
 
 
+def c02_probes():
+    """probe family of C02: a force-queued task whose body bulk-schedules children with ForceQueuingTag onto its own ConcurrentTaskSet (numThreads_ = 1, so the
+    chunks are single tasks: a worker can run child 1 before child 2 is enqueued), workers, and a thread that polls with tryWait(0) / waits"""
+    import random
+    out = []
+    for heavy in (0, 1):
+        progs = [[(0, 0, [('s', 0, 1, 0, [('b', 0, 1, 3, [])])] + [('k',)] * 4), (1, 0, [('k',)] * 3), (0, 0, [('y', 0, 0)] * 6 + [('w', 0)])],
+                 [(0, 0, [('s', 0, 1, 0, [('b', 0, 1, 3, [])]), ('w', 0)]), (1, 0, [('k',)] * 3), (1, 0, [('k',)] * 4)],
+                 [(0, 0, [('b', 0, 1, 2, [('b', 0, 1, 2, [])])] + [('k',)] * 3), (1, 0, [('k',)] * 4), (0, 0, [('y', 0, 0)] * 5 + [('y', 0, 1), ('w', 0)])]]
+        for pi, threads in enumerate(progs):
+            for j in range(5):
+                rr = random.Random(7000 + 100 * heavy + 10 * pi + j)
+                sched = [rr.randrange(0, 60) for _ in range(120)]
+                out.append({'budget': 120, 'nthr': 1, 'plf': 32, 'wr': 0, 'sets': [(1, heavy, 4, -1, 0)], 'threads': threads, 'sched': sched})
+    return out
+
+
+def depthcap_probes():
+    """a caller already kMaxInlineDepth deep submits to an overloaded set (outstanding above every task-set threshold): the functor must be queued, never dropped"""
+    out = []
+    for conc, heavy in ((1, 0), (1, 1), (0, 0)):
+        ops = [('s', 0, 1, 0, [])] * 4 + [('s', 0, 0, 0, []), ('s', 0, 0, 1, []), ('b', 0, 0, 2, []), ('w', 0)]
+        out.append({'budget': 120, 'nthr': 1, 'plf': 32, 'wr': 0, 'sets': [(conc, heavy, 1, -1, 0)], 'threads': [(0, 32, ops)], 'sched': [0] * 120})
+        out.append({'budget': 120, 'nthr': 1, 'plf': 32, 'wr': 0, 'sets': [(conc, heavy, 1, -1, 0)], 'threads': [(1, 32, ops), (1, 0, [('k',)] * 3)],
+                    'sched': [0] * 8 + [1] * 6 + [0] * 106})
+    return out
+
+
+def c04_cascade_probes():
+    """probe family of C04: a cascading child (TaskSet / ConcurrentTaskSet light / heavy); a task of the parent throws and completes (the parent's flag is set
+    through the exception path, which does not cascade); then cancel() on the parent (or on the grandparent); bodies scheduled to the child afterwards must not start"""
+    out = []
+    for conc, heavy in ((0, 0), (1, 0), (1, 1)):
+        after = lambda c: [('s', c, 1, 0, []), ('k',), ('s', c, 0, 0, []), ('b', c, 0, 2, []), ('k',), ('k',), ('w', c)]
+        out.append({'budget': 120, 'nthr': 1, 'plf': 32, 'wr': 0, 'sets': [(1, 0, 4, -1, 0), (conc, heavy, 4, 0, 0)],
+                    'threads': [(0, 0, [('s', 0, 1, 0, [('t',)]), ('k',), ('c', 0)] + after(1))], 'sched': [0] * 120})
+        out.append({'budget': 120, 'nthr': 1, 'plf': 32, 'wr': 0, 'sets': [(1, 0, 4, -1, 0), (conc, heavy, 4, 0, 0)],
+                    'threads': [(0, 0, [('c', 0)] + after(1))], 'sched': [0] * 120})
+        out.append({'budget': 120, 'nthr': 1, 'plf': 32, 'wr': 0, 'sets': [(1, 1, 4, -1, 0), (1, 0, 4, 0, 0), (conc, heavy, 4, 1, 0)],
+                    'threads': [(0, 0, [('s', 1, 1, 0, [('t',)]), ('k',), ('c', 0)] + after(2))], 'sched': [0] * 120})
+        out.append({'budget': 120, 'nthr': 2, 'plf': 64, 'wr': 0, 'sets': [(1, 0, 4, -1, 0), (conc, heavy, 4, 0, 0)],
+                    'threads': [(0, 0, [('s', 0, 1, 0, [('t',)]), ('k',), ('c', 0)] + after(1)), (1, 0, [('k',)] * 3)], 'sched': [0] * 14 + [1, 0] * 53})
+    return out
+
+
 def gen_case(r, flavour='mixed'):
     """flavours bias the generator at the case splits of the proofs: 'barrier' (C02), 'cancel' (C04), 'exc' (C05), 'force' (C47)"""
     if flavour == 'cancel' and r.random() < 0.4:
+        if r.random() < 0.3:
+            c = dict(r.choice(c04_cascade_probes()))
+            if r.random() < 0.5:
+                c['sched'] = [r.randrange(0, 60) for _ in range(c['budget'])]
+            return c
         return gen_directed_cancel(r)
+    if flavour == 'barrier' and r.random() < 0.2:
+        c = dict(r.choice(c02_probes() + depthcap_probes()))
+        c['sched'] = [r.randrange(0, 60) for _ in range(c['budget'])]
+        return c
     if flavour == 'exc' and r.random() < 0.35:
         return gen_directed_exc(r)
     nthr = r.choice([0, 1, 1, 2, 2, 3])
@@ -356,26 +415,30 @@ def run_lockstep(ctx, exe, cases, judge, timeout=900):
         kept.append((c, p, o))
     verdicts = ls_common.judge_parallel(ctx, IMPORTS, judge, terms, shard_size=60)
     if verdicts is None:
-        return None
+        # the model side does not evaluate: still judge the implementation's own log (verdicts 0 / 2 only)
+        ctx.broken.append('correspondence L: the model no longer evaluates; judging the implementation log alone (%s_impl)' % judge)
+        verdicts = ls_common.judge_parallel(ctx, IMPORTS, judge + '_impl', terms, shard_size=60)
+        if verdicts is None:
+            return None
     return [(c, p, o, v) for (c, p, o), v in zip(kept, verdicts)]
 
 
 # ------------------------------------------------------------------------------------------------ decisions under forced load (D)
 def d_line(d):
-    return 'D %d %d %d %d %d %d %d %d %d %d %d %d' % (d['cls'], d['force'], d['skip'], d['nthr'], d['blockers'], d['preOut'], d['canceled'], d['recursive'],
-                                                      d['depth'], d['prlf2'], d['mult'], d['bulk'])
+    return 'D %d %d %d %d %d %d %d %d %d %d %d %d %d' % (d['cls'], d['force'], d['skip'], d['nthr'], d['blockers'], d['preOut'], d['canceled'], d['recursive'],
+                                                         d['depth'], d['prlf2'], d['mult'], d['bulk'], d.get('casc', 0))
 
 
 def d_parse(o):
-    m = re.match(r'D out=(-?\d+) wr=(-?\d+) n=(\d+) plf=(\d+) lf=(-?\d+) canc=(\d) \| incall=(\d+) fout=(-?\d+) aout=(-?\d+) ran=(\d+)', o or '')
+    m = re.match(r'D out=(-?\d+) wr=(-?\d+) n=(\d+) plf=(\d+) lf=(-?\d+) canc=(\d) \| incall=(\d+) fout=(-?\d+) aout=(-?\d+) ran=(\d+) api=(\d)', o or '')
     return [int(x) for x in m.groups()] if m else None
 
 
 def d_term(d, v):
-    out, wr, n, plf, lf, canc, incall, fout, aout, ran = v
-    return '(DC %d %s %s %s %d %d %d %s %s %d %d %s %s %d %s %s %d)' % (
+    out, wr, n, plf, lf, canc, incall, fout, aout, ran, api = v
+    return '(DC %d %s %s %s %d %d %d %s %s %d %d %s %s %d %s %s %d %s)' % (
         d['cls'], cb(d['force']), cb(d['skip']), cb(d['recursive'] and d['nthr'] > 0), d['depth'], d['prlf2'], d['bulk'],
-        dv.zlit(out), dv.zlit(wr), n, plf, dv.zlit(lf), cb(canc), incall, dv.zlit(fout), dv.zlit(aout), ran)
+        dv.zlit(out), dv.zlit(wr), n, plf, dv.zlit(lf), cb(canc), incall, dv.zlit(fout), dv.zlit(aout), ran, cb(api))
 
 
 def gen_dcase(r, want=None):
@@ -393,6 +456,14 @@ def gen_dcase(r, want=None):
         d['bulk'] = r.choice([1, 2, 5])
     if want == 'known':
         d.update({'cls': r.choice([1, 2]), 'force': 0, 'skip': 0, 'nthr': 1, 'blockers': 40, 'preOut': 0, 'canceled': 1, 'recursive': 0, 'depth': 0, 'bulk': 0})
+    if want == 'depthcap':         # caller at the inline-depth cap, set overloaded (outstanding above every task-set threshold), pool not overloaded
+        n = r.choice([1, 2])
+        d.update({'cls': r.choice([1, 1, 2]), 'force': 0, 'skip': int(r.random() < 0.3), 'nthr': n, 'blockers': n, 'preOut': d['mult'] * n + 2, 'canceled': 0,
+                  'recursive': int(r.random() < 0.3), 'depth': 32, 'bulk': 0})
+    if want == 'cascade':          # the set is a cascading child; cancellation through the parent, optionally after a task of the parent has thrown
+        d.update({'cls': r.choice([0, 1, 2]), 'casc': r.choice([1, 2, 2]), 'canceled': 1, 'bulk': 0})
+        if d['nthr'] > 0 and r.random() < 0.5:
+            d['blockers'] = d['nthr']
     if want == 'cancel_over':      # cancelled set whose outstanding count exceeds every task-set threshold, pool not overloaded
         n = r.choice([1, 2])
         d.update({'cls': r.choice([0, 0, 1, 2]), 'force': 0, 'skip': int(r.random() < 0.3), 'nthr': n, 'blockers': n, 'preOut': d['mult'] * n + 2, 'canceled': 1,
@@ -412,8 +483,8 @@ def d_fallback(ctx, exe, dcases, on_verdict):
         v = d_parse(o)
         if v is None:
             continue
-        out, wr, n, plf, lf, canc, incall, fout, aout, ran = v
-        if canc and d['cls'] != 3 and (incall or ran):
+        out, wr, n, plf, lf, canc, incall, fout, aout, ran, api = v
+        if (canc or api) and d['cls'] != 3 and (incall or ran):
             on_verdict(2, d, v, o)
         elif d['force'] and n >= 1 and incall:
             on_verdict(2, d, v, o)
@@ -429,9 +500,13 @@ def run_decisions(ctx, exe, dcases, judge):
             continue
         terms.append(d_term(d, v))
         kept.append((d, v, o))
-    verdicts = ls_common.judge_parallel(ctx, IMPORTS, judge, terms, shard_size=200)
+    verdicts = ls_common.judge_parallel(ctx, IMPORTS_D, judge, terms, shard_size=200)
     if verdicts is None:
-        return None
+        # Gen/GenTaskSet.v (or the tie) is broken: the differential is not disabled, the implementation-only judge still evaluates
+        ctx.broken.append('correspondence D: %s does not evaluate against the regenerated decision functions; judging the implementation alone (%s_impl)' % (judge, judge))
+        verdicts = ls_common.judge_parallel(ctx, IMPORTS, judge + '_impl', terms, shard_size=200)
+        if verdicts is None:
+            return None
     return [(d, v, o, x) for (d, v, o), x in zip(kept, verdicts)]
 
 
@@ -451,7 +526,7 @@ def prove_and_build(ctx, pid):
     if errs:
         ctx.broken.append('translator T(taskset): ' + '; '.join(errs)[:400])
     ctx.cov['translated_functions'] = 21 - len(errs)
-    ctx.prove(tie_files=['GenTie/TaskSetGenTie.v'], models=['Model/TaskSetCheck.v', 'Model/C02Check.v', 'Model/C04Check.v', 'Model/C05Check.v', 'Model/C47Check.v'])
+    ctx.prove(tie_files=['GenTie/TaskSetGenTie.v'], models=CHECK_MODELS)
     exe = dv.build_harness('h_taskset', ['h_taskset.cpp'])
     ctx.phase('build')
     return exe
@@ -525,7 +600,8 @@ def decision_phase(ctx, exe, judge, n, witnesses=(), on_verdict=None):
     r = ctx.rng
     if ctx.broken and ctx.quick:      # something no longer checks: search harder for a concrete failing input
         n *= 3
-    ds = list(witnesses) + [gen_dcase(r, 'known' if i % 17 == 5 else ('cancel_over' if i % 5 == 2 else None)) for i in range(n)]
+    wants = {5: 'known', 2: 'cancel_over', 3: 'cascade', 8: 'cascade', 6: 'depthcap'}
+    ds = list(witnesses) + [gen_dcase(r, wants.get(i % 10)) for i in range(n)]
     res = run_decisions(ctx, exe, ds, judge)
     if res is None:
         ctx.broken.append('correspondence D: the decision judge no longer evaluates')
